@@ -27,7 +27,11 @@ func RebaseRef(baseRef string, ref string) string {
 	parts := strings.Split(ref, "#")
 
 	baseParts := strings.Split(baseRef, "#")
-	baseURL, _ := url.Parse(baseParts[0])
+	baseURL, err := url.Parse(baseParts[0])
+	if err != nil {
+		// not a valid URL (e.g. a file name with a '%'): a plain local path, without host
+		baseURL = &url.URL{Path: baseParts[0]}
+	}
 	if strings.HasPrefix(ref, "#") {
 		if baseURL.Host == "" {
 			return strings.Join([]string{baseParts[0], parts[1]}, "#")
@@ -36,7 +40,10 @@ func RebaseRef(baseRef string, ref string) string {
 		return strings.Join([]string{baseParts[0], parts[1]}, "#")
 	}
 
-	refURL, _ := url.Parse(parts[0])
+	refURL, err := url.Parse(parts[0])
+	if err != nil {
+		refURL = &url.URL{Path: parts[0]}
+	}
 	if refURL.Host != "" || filepath.IsAbs(parts[0]) {
 		// not rebasing an absolute path
 		return ref
@@ -74,8 +81,8 @@ func Path(ref spec.Ref, basePath string) string {
 		return uri
 	}
 
-	refURL, _ := url.Parse(uri)
-	if refURL.Host != "" {
+	refURL, err := url.Parse(uri)
+	if err == nil && refURL.Host != "" {
 		return uri
 	}
 
